@@ -172,6 +172,8 @@ func TestSenderReports(t *testing.T) {
 			var first chan uint32
 			var release chan struct{}
 			if ns >= 2 && rapid.IntRange(0, 2).Draw(t, "slowReportWrite") == 0 {
+				// (the last write of the previous tick has been recorded, but may not have returned yet: the hook is for this tick's writes)
+				kit.Eventually(3*kit.DefaultDeadline, func() bool { return rtcpSink.InFlight() == 0 })
 				first, release = make(chan uint32, 1), make(chan struct{})
 				var once sync.Once
 				rtcpSink.OnCall = func(c kit.SentRTCP) {
@@ -189,14 +191,14 @@ func TestSenderReports(t *testing.T) {
 			}
 			select {
 			case tk.ch <- now:
-			case <-time.After(kit.DefaultDeadline):
+			case <-time.After(3 * kit.DefaultDeadline): // (three deadlines, as kit.Guard: a stalled process is not a blocked loop)
 				t.Fatalf("ticker loop did not accept a tick within the watchdog deadline")
 			}
 			if first != nil {
 				var held uint32
 				select {
 				case held = <-first:
-				case <-time.After(kit.DefaultDeadline):
+				case <-time.After(3 * kit.DefaultDeadline): // (three deadlines, as kit.Guard: a stalled process is not a blocked loop)
 					t.Fatalf("tick %d: no sender report was written within the watchdog deadline", ticks+1)
 				}
 				now = now.Add(time.Duration(rapid.Int64Range(1000, 20_000_000).Draw(t, "whileHeldNs")))
@@ -221,7 +223,7 @@ func TestSenderReports(t *testing.T) {
 				classes["packets-sent-while-a-report-write-is-held-up"] = true
 				close(release)
 			}
-			if !kit.Eventually(kit.DefaultDeadline, func() bool { return rtcpSink.Len() >= from+ns }) {
+			if !kit.Eventually(3*kit.DefaultDeadline, func() bool { return rtcpSink.Len() >= from+ns }) {
 				t.Fatalf("tick %d: %d sender reports written for %d bound streams", ticks+1, rtcpSink.Len()-from, ns)
 			}
 			ticks++
